@@ -45,6 +45,8 @@ def run(ctx) -> None:
     from . import c13
 
     ctx.reuse("C10.slot-order", c13.one_to_one)
+    # aspirate and dispense take the tips in the same argument position and build the mask the same way
+    ctx.reuse("C10.slot-order", c13.siblings)
     # the record emitters hand the caller's tip to the validator as it was given (no default substituted for falsy values)
     from . import c09
 
@@ -598,6 +600,13 @@ def aggregate_records(ctx) -> None:
     ctx.rep.check(lp.id in fv.cfg.completed_loops_at(folds[0].id), rule, f"{f.qualname}/fold-after-loop", "the fold runs after all members were converted", "the fold is not placed after the conversion loop", where=f.where(folds[0].ast))
     # else-branch of the element type dispatch raises
     rej = any(n.id in body and not pol and raise_class(fv, r)[0] == "ValueError" for n, test, pol, r in fv.raising_guards())
+    if not rej:
+        # guard-clause form: a ValueError raised inside the loop where `isinstance(<element>, Tip)` is known to be false
+        for rn_ in (fv.cfg.nodes[i] for i in body):
+            if rn_.kind == "stmt" and isinstance(rn_.ast, ast.Raise) and raise_class(fv, rn_.ast)[0] == "ValueError":
+                for r_, pol_, _b in fv.atoms_at(rn_.id, within=body):
+                    if isinstance(r_, ast.Call) and call_fname(r_) == "isinstance" and not pol_ and len(r_.args) == 2 and any(is_name(x, "Tip") for x in ast.walk(r_.args[1])):
+                        rej = True
     ctx.rep.check(rej, "C10.type-guard", f"{f.qualname}/element-type", "elements that are neither int nor Tip raise ValueError", "a collection element that is neither an int nor a Tip is not rejected with ValueError", where=w)
     # scalar int conversion
     conv_scalar = any(n.kind == "stmt" and isinstance(n.ast, (ast.Assign, ast.Return)) and n.ast.value is not None and isinstance(n.ast.value, ast.Call) and call_fname(n.ast.value) == "int_to_tip"
@@ -851,6 +860,23 @@ def any_rules(ctx) -> None:
             t = val.elts[4]
             if isinstance(t, ast.IfExp) and isinstance(t.test, ast.Compare) and isinstance(t.test.ops[0], ast.Eq) and _is_any(t.test.comparators[0]) and isinstance(t.body, ast.Constant) and t.body.value == "" and key(t.orelse) == key(t.test.left):
                 ok = True
+        if not ok:
+            # statement form:  if tip == -1: tip = ""   (the test is reached on every path to the return, nothing re-binds the name after it)
+            raw_, at_ = fv.def_expr(rn.ast.value, rn.id)
+            if isinstance(raw_, ast.Tuple) and len(raw_.elts) == 9 and isinstance(raw_.elts[4], ast.Name):
+                nm = raw_.elts[4].id
+                for d in sorted(fv.cfg.reaching()[at_].get(nm, ())):
+                    dn = fv.cfg.nodes[d]
+                    if not (dn.kind == "stmt" and isinstance(dn.ast, ast.Assign) and isinstance(dn.ast.value, ast.Constant) and dn.ast.value.value == ""):
+                        continue
+                    ctrl = fv.controlling(d, skip_raising=True)
+                    if len(ctrl) != 1 or not ctrl[0][1]:
+                        continue
+                    tn = fv.cfg.nodes[ctrl[0][0]]
+                    t_ = tn.ast
+                    if isinstance(t_, ast.Compare) and len(t_.ops) == 1 and isinstance(t_.ops[0], ast.Eq) and is_name(t_.left, nm) and _is_any(t_.comparators[0]) and fv.cfg.dominates(tn.id, at_):
+                        later = [x for x in fv.cfg.reaching()[at_].get(nm, ()) if x != d and fv.cfg.dominates(tn.id, x)]
+                        ok = not later
     ctx.rep.check(ok, rule, f"{f.qualname}/alone", "a lone Tip.Any gives the empty mask field, everything else its mask", "the returned tip field is not `'' if tip == -1 else tip`", where=f.where())
     for vname in ("prepare_evo_aspirate_dispense_parameters", "prepare_evo_wash_parameters"):
         g = ctx.prog.func(vname)
